@@ -12,7 +12,8 @@ from hypothesis import strategies as st
 PROPERTY = "C08"
 LEVEL = "exploration"
 RULE = ("cases = (chart, N producer threads, M events each, blocking mode of step(), schedule vector): N in 1..6 threads call "
-        "Interpreter::receive concurrently with events named p.<producer>.<seq> while the stepping thread runs step(0) / "
+        "Interpreter::receive concurrently with events named p.<producer>.<seq> (in one stream typed EXTERNAL / INTERNAL / PLATFORM in turn: receive() "
+        "must queue whatever Event::Type the embedder passes) while the stepping thread runs step(0) / "
         "step(2 ms) / step(long); the generated chart reacts to 'p' prefixes, raises internal events and has eventless "
         "transitions; the interleaving is perturbed at the USCXML_VERIF schedule points in BasicEventQueue::enqueue/dequeue by "
         "a generated vector of actions (none / yield / 50 us / 400 us sleep). Oracle = invariants over the observed "
@@ -58,7 +59,7 @@ def retarget_raises(ch):
     return ch
 
 
-def check_case(ctx, ch, nprod, nper, mode, sched, engine, variant="san"):
+def check_case(ctx, ch, nprod, nper, mode, sched, engine, variant="san", mixed=False):
     ch = retarget_raises(ch)
     xml = ch.to_xml('lua')
     m0, exp0 = run_model(ch, ['p.0.0', 'p.1.0', 'p.0.1'])
@@ -67,7 +68,8 @@ def check_case(ctx, ch, nprod, nper, mode, sched, engine, variant="san"):
         ctx.evaluations += 1
         return
     try:
-        r = ctx.worker(variant).call("producers", xml, engine, str(nprod), str(nper), str(mode), " ".join(map(str, sched)), timeout=40)
+        r = ctx.worker(variant).call("producers", xml, engine, str(nprod), str(nper), str(mode), " ".join(map(str, sched)), "mixed" if mixed else "plain",
+                                     timeout=40)
     except WorkerCrash as e:
         raise Failure("crash", {"stderr": crash_excerpt(e.stderr), "signature": crash_signature(e.stderr)})
     except WorkerHang:
@@ -75,7 +77,8 @@ def check_case(ctx, ch, nprod, nper, mode, sched, engine, variant="san"):
     if r.get("exception"):
         raise Failure("exception", {"exception": r["exception"][:300], "signature": "exception"})
     raw = r["trace"]
-    ext = [e[1] for e in raw if e[0] == 'ev' and e[2] == 2]
+    # (by name, not by the type field: with mixed=True the producers hand over events of all three public Event::Type values)
+    ext = [e[1] for e in raw if e[0] == 'ev' and re.match(r'^p\.\d+\.\d+$', e[1])]
     sent = sorted("p.%d.%d" % (p, s) for p in range(nprod) for s in range(nper))
     finished = any(e[0] == 'bcomp' for e in raw)
     if r.get("timeout") and not finished:
@@ -134,8 +137,10 @@ def check_case(ctx, ch, nprod, nper, mode, sched, engine, variant="san"):
                 return
         raise Failure("macrostep-boundary-violated", {"engine": engine, "window": trace.diff_window(expm, obs, i),
                                                       "signature": [str(expm[i])[:30] if i < len(expm) else None, str(obs[i])[:30] if i < len(obs) else None]})
-    internal = sum(1 for e in raw if e[0] == 'ev' and e[2] != 2)
+    internal = sum(1 for e in raw if e[0] == 'ev' and not re.match(r'^p\.\d+\.\d+$', e[1]))
     labels = {'mode-%s' % mode, 'producers-%d' % nprod, 'engine-' + engine}
+    if mixed:
+        labels.add('mixed-event-types')
     if internal:
         labels.add('internal-events-interleaved')
     nontrivial = nprod >= 2 and len(sent) >= 20 and internal > 0
@@ -155,6 +160,8 @@ def shard_main(ctx):
         ctx.replay_corpus(mod)
     ctx.run_hypothesis(case_s, lambda ch, n, m, mode, sched, eng: check_case(ctx, ch, n, m, mode, sched, eng), p["cases"] // ctx.nshards + 1,
                        lambda ch, n, m, mode, sched, eng: dict(case_repr(ch, []), args=[n, m, mode, sched, eng]))
+    ctx.run_hypothesis(case_s, lambda ch, n, m, mode, sched, eng: check_case(ctx, ch, n, m, mode, sched, eng, mixed=True), p["cases"] // (4 * ctx.nshards) + 1,
+                       lambda ch, n, m, mode, sched, eng: dict(case_repr(ch, []), args=[n, m, mode, sched, eng], mixed=True), name="mixedtypes")
     ctx.run_hypothesis([gen.dataflow_charts('lua', events=('p', 'p.0', 'p.1'), internal='j')] + case_s[1:], lambda ch, n, m, mode, sched, eng: check_case(ctx, ch, n, m, mode, sched, eng),
                        p["cases"] // (3 * ctx.nshards) + 1,
                        lambda ch, n, m, mode, sched, eng: dict(case_repr(ch, []), args=[n, m, mode, sched, eng]), name="dataflow")
@@ -177,7 +184,7 @@ def replay(ctx, case):
     ch, _ = harness.unpack(case["pickle"])
     try:
         n, m, mode, sched, eng = case["args"]
-        check_case(ctx, ch, n, m, mode, sched, eng, case.get("variant", "san"))
+        check_case(ctx, ch, n, m, mode, sched, eng, case.get("variant", "san"), mixed=bool(case.get("mixed")))
     except Failure as f:
         return [{"kind": f.kind, "detail": f.detail}]
     return []
